@@ -118,8 +118,9 @@ MODULES["sparse"] = {
     "sigs": dict({f: {"args": _SPARSE_ARGS, "fuel": "ind1.shape[0] + ind2.shape[0]", "opaque": _SPARSE_OPAQUE} for f in _SPARSE_FNS},
                  **{"approx_log_Gamma": {"args": {"x": F}}, "log_beta": {"args": {"x": F, "y": F}}, "log_single_beta": {"args": {"x": F}},
                     "sparse_ll_dirichlet": {"args": _SPARSE_ARGS, "fuel": "ind1.shape[0] + ind2.shape[0]"}}),
-    "files": ["L_sparse.v", "K_sparse.v", "L_sparse_lld.v"], "also": ["distances"],
-    "deps": ["model/M_sparse_lld.v", "thm/T_metrics_real.v", "model/M_sparse.v", "thm/T_sparse.v", "thm/T_sparse_metrics.v", "thm/T_sparse_corr.v", "thm/T_sparse_link.v", "prop/P_C13.v"],
+    "files": ["L_sparse.v", "L_sparse_lld.v", "K_sparse.v"], "also": ["distances"],       # K_sparse.v imports both link files
+    "deps": ["model/M_sparse_lld.v", "thm/T_metrics_real.v", "model/M_sparse.v", "thm/T_sparse.v", "thm/T_sparse_metrics.v", "thm/T_sparse_corr.v", "thm/T_sparse_link.v",
+             "thm/T_sparse_lld.v", "prop/P_C13.v"],
 }
 
 # init_update (umap_.py, C11): an in-place update of the rows n_original_samples.. of a 2-d float array that reads the rows below
